@@ -74,6 +74,19 @@ class Evidence(object):
 
 
 # ---------------------------------------------------------------------------------------------
+# thorough-tier sizing: every thorough command is meant to end within about VERIF_THOROUGH_BUDGET_S of wall time on this
+# machine (default 7 min; set it higher for a deeper run).  A shard that has not exhausted its cube space when its share
+# of the budget is used up stops and is reported as not exhausted in the evidence - never as a success of the whole space.
+
+def fit_cap(max_s, nshards, tier):
+  if tier != "thorough":
+    return max_s
+  budget = float(os.environ.get("VERIF_THOROUGH_BUDGET_S", "420"))
+  share = max(5.0, 1.2 * budget * NCPU / max(1, nshards))
+  return min(max_s, share) if max_s is not None else 2 * share
+
+
+# ---------------------------------------------------------------------------------------------
 # known findings
 
 def load_known():
